@@ -19,7 +19,7 @@ import (
 
 // ---------------------------------------------------------------- generators shared by C05/C06/C10
 
-var vfNameShapes = []string{"plain", "long", "max", "stack", "ditto", "nul", "binary", "dots", "one", "truncated", "nl-end", "nl-mid", "ditto-first", "ditto-name", "stack-nodots", "deep-ditto"}
+var vfNameShapes = []string{"plain", "long", "max", "stack", "ditto", "nul", "binary", "dots", "one", "truncated", "nl-end", "nl-mid", "ditto-first", "ditto-name", "stack-nodots", "deep-ditto", "generic-ditto"}
 
 // vfGenName returns a counter name of the given shape, unique through uniq.
 func vfGenName(r *verifrt.Rand, shape string, uniq int) string {
@@ -62,6 +62,11 @@ func vfGenName(r *verifrt.Rand, shape string, uniq int) string {
 		return u + "\n\".f:+1\n\".g:+2"
 	case "stack-nodots":
 		return u + "\nmain\nnodots\n\"`"
+	case "generic-ditto":
+		// frames of an instantiated generic function as the runtime names them
+		// ("pkg.F[...]": the last dot lies inside the brackets), recursing, as the
+		// library's own encoder abbreviates them
+		return "gen/" + u + "\nexample.com/p.Walk[...]:+3,+0x1a\n\".]:+7,+0x6b\n\".]:+7,+0x6b\nexample.com/p.main:+2,+0x10\nexample.com/q.Map[...].func1:+1,+0x8\n\".func1:+1,+0x9"
 	case "deep-ditto":
 		// a deep recursion: every frame but the first abbreviates a long import
 		// path, so the stored name is well below the limit while its expansion
@@ -495,6 +500,28 @@ func TestVerifC06(t *testing.T) {
 						panic(err)
 					}
 					class = "wellformed-long-chain"
+				} else if kind == 1 && i%5 == 1 {
+					// a well-formed file that ends with its last record (written by another
+					// implementation of the layout, or trimmed to its allocation limit): a
+					// size that is not a multiple of the page size; in half of the cases the
+					// last name also fills its record to the last byte
+					es := vfGenEntries(rnd, 1+rnd.Intn(verifrt.Pick(rnd, []int{3, 30, 300})))
+					if rnd.Bool() {
+						n := "last/" + fmt.Sprint(i) + "/"
+						for (16+len(n))%32 != 0 {
+							n += "x"
+						}
+						es = append(es, verifref.Entry{Name: n + strings.Repeat("y", 32*rnd.Intn(4)), Value: 7})
+					}
+					var err error
+					if data, err = verifref.BuildCounterFile(vfGenMeta(rnd), es); err != nil {
+						panic(err)
+					}
+					class = "wellformed-ref"
+					if cf, err := verifref.ParseCounterFile(data); err == nil && int(cf.Limit) >= verifref.PageSize && int(cf.Limit) <= len(data) {
+						data = data[:cf.Limit]
+						class = "wellformed-trimmed-to-limit"
+					}
 				} else if kind == 1 {
 					data, _, _ = vfGenValidFile(rnd, verifrt.Pick(rnd, []int{3, 30, 300, 3000}))
 					class = "wellformed-ref"
@@ -609,7 +636,7 @@ func TestVerifC06(t *testing.T) {
 			}
 		}
 	})
-	res.Require("readfile-compared", "random", "wellformed-ref", "wellformed-lib", "wellformed-long-chain", "huge-image-link-near-2^32", "damage:cycle-2", "damage:next-self-stack", "damage:hdrlen-small", "accepted", "rejected", "ref-accepts")
+	res.Require("readfile-compared", "random", "wellformed-ref", "wellformed-lib", "wellformed-long-chain", "wellformed-trimmed-to-limit", "huge-image-link-near-2^32", "damage:cycle-2", "damage:next-self-stack", "damage:hdrlen-small", "accepted", "rejected", "ref-accepts")
 	if err := res.Write(); err != nil {
 		t.Fatal(err)
 	}
